@@ -161,6 +161,14 @@ def check(pid, tier, seed):
                        "script": ["file %s %s" % (hx(R + "/bad-%s.conf" % nm), hx(content))] + twice(["readfile 1 %s x3d x23" % hx(R + "/bad-%s.conf" % nm), "free 1"])})
     single.append({"name": "readfile-ok", "call": "read", "init": "null",
                    "script": ["file %s %s" % (hx(R + "/ok.conf"), hx("# c\na=1 # t\n b\n[S]\nk=\"q\"\n"))] + twice(["readfile 1 %s x3d x23" % hx(R + "/ok.conf"), "dumpx 1", "free 1"])})
+    # the extended getter hands out several allocations per call (value lines, comments, path): on values whose text starts with
+    # blanks and a quote (an empty first line + an indented quoted continuation; a value set through the API)
+    for nm, content in (("quoted-continuation", "k=\n   \"abc\"\nj=1\n"), ("quoted-continuation-comment", "# c\nk=\n\t\"a b\" # t\n"), ("two-conts", "k=v\n  \"q\n  r\"\n")):
+        single.append({"name": "ext-" + nm, "call": "free", "init": "null", "ops": ("none",),
+                       "script": ["file %s %s" % (hx(R + "/ext-%s.conf" % nm), hx(content))] + twice(["readfile 1 %s x3d x23" % hx(R + "/ext-%s.conf" % nm), "ext 1 - %s" % hx("k"), "dumpx 1", "free 1"])})
+    for nm, val in (("set-leading-blank-quote", "  \"q r\""), ("set-tab-quote", "\t\"x\""), ("set-newline-quote", "\n \"y\"")):
+        single.append({"name": "ext-" + nm, "call": "free", "init": "null", "ops": ("none",),
+                       "script": twice(["newkf 1 x3d x23", "set String 1 %s %s %s" % (hx("g"), hx("k"), hx(val)), "ext 1 %s %s" % (hx("g"), hx("k")), "dumpx 1", "free 1"])})
     single.append({"name": "readfilecb-reject", "call": "read", "init": "null",
                    "script": ["file %s %s" % (hx(R + "/ok2.conf"), hx("a=1\n"))] + twice(["cbreset", "cbrejectk 1", "readfilecb 1 %s x3d x23" % hx(R + "/ok2.conf"), "free 1", "cbreset"])})
     for optstr in ("FOO=1", "PARSING_DIRS=/a:/b;FOO=1", "CONFIG_DIRS=.d;ROOT_PREFIX=/x;python_style=1", "ROOT_PREFIX=/a;ROOT_PREFIX=/b", "PARSING_DIRS=/a;PARSING_DIRS=/b:/c;CONFIG_DIRS=.d;CONFIG_DIRS=.e:.f", "JOIN_SAME_ENTRIES=1;PYTHON_STYLE=1"):
